@@ -51,7 +51,7 @@ pub fn strategy() -> impl Strategy<Value = Case> {
     (prop::collection::vec(op, 2..9), prop::collection::vec(any::<u8>(), 0..120), prop::bool::weighted(0.35)).prop_map(|(ops, schedule, sequential)| Case { ops, schedule, sequential })
 }
 
-pub const RULE: &str = "generator: 2-8 operations on fresh shared state - readiness reports (redirector_ready, key_latched, listener_started), key_latch_ready_state_reset, provision_timeup, update_current_secure_channel_state(disabled | Unknown | a latched state), queries (get_provision_state_internal directly; GET /provision through the real listener with x-ms-azure-time_tick = an ancient instant, the instant the query is created, or a far-future instant) - run either strictly one after the other (35%) or under a generated schedule of 0-119 steps by the owned-schedule executor. oracle: sequential histories - the reference flag/tick model (DESIGN.md A.4) exactly: finished, and the error text names exactly the subsystems not ready, in order, empty iff all are; scheduled histories - possibility sets from the executor's knowledge of which operations had completed before a query started (definitely) and which had started before it ended (possibly): finished only if all three reports or the deadline or a latched channel state possibly happened (far-future tick: only if latched), a subsystem is omitted from the error text only if a report of it possibly happened and named only if it was not definitely ready. A watcher thread re-reads status.tag continuously: the same inode never shows two different contents (replace-by-rename), every content is empty or complete CRLF-terminated lines with the three known prefixes. non-trivial: >= 2 reports overlap a query or a reset overlaps a report (scheduled), or a sequential history in which finished flips; distinct by hash of the case.";
+pub const RULE: &str = "generator: 2-8 operations on fresh shared state - readiness reports (redirector_ready, key_latched, listener_started), key_latch_ready_state_reset, provision_timeup, update_current_secure_channel_state(disabled | Unknown | a latched state), queries (get_provision_state_internal directly; GET /provision through the real listener with x-ms-azure-time_tick = an ancient instant, the instant the query is created, or a far-future instant) - run either strictly one after the other (35%) or under a generated schedule of 0-119 steps by the owned-schedule executor. oracle: sequential histories - the reference flag/tick model (DESIGN.md A.4) exactly: finished, and the error text names exactly the subsystems not ready, in order, empty iff all are; scheduled histories - possibility sets from the executor's knowledge of which operations had completed before a query started (definitely) and which had started before it ended (possibly): finished only if all three reports or the deadline or a latched channel state possibly happened (far-future tick: only if latched), a subsystem is omitted from the error text only if a report of it possibly happened and named only if it was not definitely ready. A watcher thread follows the directory with inotify (the entry status.tag may only ever receive MOVED_TO events: CREATE / MODIFY / CLOSE_WRITE under the final name mean it was written in place) and re-reads status.tag continuously: the same inode never shows two different contents (replace-by-rename), every content is empty or complete CRLF-terminated lines with the three known prefixes. non-trivial: >= 2 reports overlap a query or a reset overlaps a report (scheduled), or a sequential history in which finished flips; distinct by hash of the case.";
 
 #[derive(Clone, Debug)]
 pub enum Out {
@@ -124,7 +124,43 @@ fn start_watcher(path: std::path::PathBuf) -> Watch {
     let handle = std::thread::spawn(move || {
         let mut problems = Vec::new();
         let mut seen: std::collections::BTreeMap<u64, Vec<u8>> = Default::default();
+        // every change of the directory entry `status.tag`, as the kernel reports it: a replacement by rename is one
+        // MOVED_TO event; CREATE / MODIFY / CLOSE_WRITE under the final name mean the file was written in place
+        let ifd = unsafe { libc::inotify_init1(libc::IN_NONBLOCK | libc::IN_CLOEXEC) };
+        if ifd >= 0 {
+            if let (Some(dir), Ok(())) = (path.parent(), Ok::<(), ()>(())) {
+                if let Ok(c) = std::ffi::CString::new(dir.as_os_str().as_encoded_bytes()) {
+                    unsafe { libc::inotify_add_watch(ifd, c.as_ptr(), libc::IN_CREATE | libc::IN_MODIFY | libc::IN_CLOSE_WRITE | libc::IN_MOVED_TO) };
+                }
+            }
+        }
+        let drain_events = |problems: &mut Vec<String>| {
+            if ifd < 0 {
+                return;
+            }
+            let mut buf = [0u8; 8192];
+            loop {
+                let n = unsafe { libc::read(ifd, buf.as_mut_ptr() as *mut libc::c_void, buf.len()) };
+                if n <= 0 {
+                    break;
+                }
+                let mut off = 0usize;
+                while off + 16 <= n as usize {
+                    let mask = u32::from_ne_bytes([buf[off + 4], buf[off + 5], buf[off + 6], buf[off + 7]]);
+                    let len = u32::from_ne_bytes([buf[off + 12], buf[off + 13], buf[off + 14], buf[off + 15]]) as usize;
+                    let name: Vec<u8> = buf[off + 16..(off + 16 + len).min(n as usize)].iter().cloned().take_while(|b| *b != 0).collect();
+                    if name == b"status.tag" && mask & (libc::IN_CREATE | libc::IN_MODIFY | libc::IN_CLOSE_WRITE) != 0 {
+                        let what = [(libc::IN_CREATE, "CREATE"), (libc::IN_MODIFY, "MODIFY"), (libc::IN_CLOSE_WRITE, "CLOSE_WRITE")].iter().filter(|(m, _)| mask & m != 0).map(|(_, n)| *n).collect::<Vec<_>>().join("|");
+                        if problems.len() < 5 {
+                            problems.push(format!("status.tag received the file-system event {} under its final name: written in place, not replaced by rename", what));
+                        }
+                    }
+                    off += 16 + len;
+                }
+            }
+        };
         while !st.load(Ordering::Relaxed) {
+            drain_events(&mut problems);
             if let Ok(f) = std::fs::File::open(&path) {
                 use std::io::Read;
                 let mut f = f;
@@ -151,6 +187,10 @@ fn start_watcher(path: std::path::PathBuf) -> Watch {
                 }
             }
             std::thread::yield_now();
+        }
+        drain_events(&mut problems);
+        if ifd >= 0 {
+            unsafe { libc::close(ifd) };
         }
         problems
     });
